@@ -502,3 +502,9 @@ def replay(path: str) -> int:
     ref = reference(rc["kind"], t, x)
     print(f"{obj!r}({x!r}) -> {r!r}; documented relation: {ref!r}")
     return 0 if (ref is None or r == ref) else 1
+
+
+# predicates are values of the model: nothing in the package stores into a predicate (or any other argument) -
+# the schema generator, the renderers and the validators that carry predicates included
+from ..facts import attach as _attach, effects as _effects  # noqa: E402
+_attach(globals(), _effects.obligation("C15"))
